@@ -15,6 +15,10 @@ TwoPhi == ZN(411774)
 QuarterPhi == ZN(51472)
 
 Pair(op, x, y) == Call(op, <<"fx", "fx">>, <<x, y>>)
+(* seeded random pairs expanded by the driver: mode "neg" (x,-x), "delta" (x, x+d), "period" (x, x + k*period) *)
+RandPair(op, n, sd, mb, mode, period, nonneg) ==
+   [k |-> "rand", op |-> op, t |-> <<"fx", "fx">>, n |-> n, seed |-> sd, maxbits |-> mb, pair |-> mode, period |-> Enc(period), nonneg |-> nonneg,
+    asg |-> 0, via |-> "", ot |-> "fx"]
 (* 64 points in every octave [2^k, 2^(k+1)) for k in lo..hi *)
 Octaves(op, lo, hi, pts) == [i \in 1..(hi - lo + 1) |-> SweepZ(op, "fx", P(lo + i - 1), P(lo + i) -- Z1, ZMax(Z1, P(lo + i - 1) // ZN(pts)))]
 OctavesNeg(op, lo, hi, pts) == [i \in 1..(hi - lo + 1) |-> SweepZ(op, "fx", ZNeg(P(lo + i)) ++ Z1, ZNeg(P(lo + i - 1)), ZMax(Z1, P(lo + i - 1) // ZN(pts)))]
@@ -22,20 +26,21 @@ OctavesNeg(op, lo, hi, pts) == [i \in 1..(hi - lo + 1) |-> SweepZ(op, "fx", ZNeg
 (* ---- C09 ------------------------------------------------------------------------------------------ *)
 PhiMultiples == {ZN(k) ** QuarterPhi : k \in (-9)..9} \cup {ZN(k) ** HalfPhi : k \in (-5)..5} \cup {ZN(k) ** Phi : k \in (-2)..2}
 PerK == {ZN(1), ZN(-1), ZN(2), ZN(-2), ZN(3), ZN(-3), ZN(1000), ZN(-1000), ZN(170892343), ZN(-170892343)}
-PerX == {Z0, Z1, ZN(-1), ZN(51472), ZN(-51472), HalfPhi, ZNeg(HalfPhi), HalfPhi ++ Z1, HalfPhi -- Z1, Phi, ZNeg(Phi), ZN(308831), ZN(308832),
+WidthEdges == UNION {{P(k) -- Z1, P(k), P(k) ++ Z1, P(k) -- HalfPhi, (P(k) -- HalfPhi) -- Z1, (P(k) -- HalfPhi) ++ Z1, P(k) -- ZN(50000), P(k) -- TwoPhi} : k \in {15, 16, 24, 31, 32, 33, 40}}
+PerX == PM(WidthEdges) \cup {Z0, Z1, ZN(-1), ZN(51472), ZN(-51472), HalfPhi, ZNeg(HalfPhi), HalfPhi ++ Z1, HalfPhi -- Z1, Phi, ZNeg(Phi), ZN(308831), ZN(308832),
          ZN(-102945), ZN(-102943), TwoPhi, ZNeg(TwoPhi), ZN(65536), ZN(-65536), ZN(12345), ZN(-54321), ZN(400000), ZN(-400000), P(45), ZNeg(P(45))}
-PerPairs == {<<x, x ++ (k ** TwoPhi)>> : x \in PerX, k \in PerK}
+PerPairs == {<<x, x ++ (k ** TwoPhi)>> : x \in PerX, k \in PerK} \cup {<<x, x -- ((x // TwoPhi) ** TwoPhi)>> : x \in PerX}
 Jobs_C09 ==
    FlatSeq([f \in 1..2 |-> LET op == <<"sin", "cos">>[f] IN
       <<Sweep(op, "fx", ZNeg(TwoPhi), TwoPhi, NR(16, 1))>>
       \o S2Q({Sweep(op, "fx", m -- ZN(48), m ++ ZN(48), 1) : m \in PhiMultiples})
       \o S2Q({Sweep(op, "fx", m -- ZN(2), m ++ ZN(2), 1) : m \in {ZNeg(TwoPhi) ++ ZN(2), TwoPhi -- ZN(2)}})
       \o S2Q({Pair(op \o "_pair", p[1], p[2]) : p \in {q \in PerPairs : (ZAbs(q[2]) \prec P(46))}})
-      \o <<[RandB(op \o "_pair", <<"fx", "fx">>, NR(10, 10), Seed, 40) EXCEPT !.n = 0]>>])
+      \o <<RandPair(op \o "_pair", NR(4000, 200000), Seed + f, 46, "period", TwoPhi, 0), RandPair(op \o "_pair", NR(1500, 100000), Seed + 2 + f, 33, "period", TwoPhi, 0)>>])
 
 (* ---- C10 ------------------------------------------------------------------------------------------ *)
 TanPeriodK == {Z1, ZN(2), ZN(3), ZN(7), ZN(1000), ZN(1234567), P(40)}
-TanX == {Z0, Z1, ZN(100), ZN(25736), QuarterPhi -- Z1, QuarterPhi, QuarterPhi ++ Z1, ZN(65536), HalfPhi -- ZN(2), HalfPhi -- Z1, HalfPhi,
+TanX == {x \in WidthEdges : Z0 \preceq x} \cup {P(50), P(58), P(59) -- Z1, P(59), P(59) ++ ZN(12345), P(60), P(61), P(61) ++ P(60), P(62) -- TwoPhi} \cup {Z0, Z1, ZN(100), ZN(25736), QuarterPhi -- Z1, QuarterPhi, QuarterPhi ++ Z1, ZN(65536), HalfPhi -- ZN(2), HalfPhi -- Z1, HalfPhi,
          HalfPhi ++ Z1, HalfPhi ++ ZN(2), ZN(150000), ZN(161220), ZN(161221), Phi -- Z1, Phi, Phi ++ Z1, ZN(205886), ZN(300000), TwoPhi, P(30), P(45) ++ ZN(77)}
 Jobs_C10 ==
    <<Sweep("tan", "fx", ZNeg(Phi), Phi, NR(8, 1))>>
@@ -44,7 +49,10 @@ Jobs_C10 ==
                                                    \cup {(HalfPhi ++ (k ** Phi)) -- Z1 : k \in TanPeriodK} \cup TanX)})
    \o S2Q({Pair("tan_pair", x, ZNeg(x)) : x \in PM(TanX)})
    \o S2Q({Pair("tan_pair", x, x ++ (k ** Phi)) : x \in TanX, k \in TanPeriodK})
-   \o <<Sweep("tan", "fx", P(40), P(40) ++ ZN(4000), NR(7, 1))>>
+   \o S2Q({Pair("tan_pair", x, x -- ((x // Phi) ** Phi)) : x \in TanX})
+   \o <<Sweep("tan", "fx", P(40), P(40) ++ ZN(4000), NR(7, 1)),
+        RandPair("tan_pair", NR(3000, 200000), Seed + 1, 62, "period", Phi, 1), RandPair("tan_pair", NR(1500, 100000), Seed + 2, 33, "period", Phi, 1),
+        RandPair("tan_pair", NR(3000, 200000), Seed + 3, 62, "neg", Phi, 0), RandB("tan", <<"fx">>, NR(3000, 200000), Seed + 4, 62)>>
 
 (* ---- C11 ------------------------------------------------------------------------------------------ *)
 AtanSeg == {ZN(28672), ZN(45056), ZN(77824), ZN(159744)}
@@ -54,14 +62,16 @@ A2Lm == PM({Z0, Z1, ZN(2), ZN(255), ZN(65535), ZN(65536), ZN(65537), P(13), P(15
 Jobs_C11 ==
    <<Sweep("atan", "fx", Z0, P(20), NR(16, 1)), Sweep("atan", "fx", ZNeg(P(18)), Z0, NR(16, 1))>>
    \o S2Q({Sweep("atan", "fx", m -- ZN(40), m ++ ZN(40), 1) : m \in PM(AtanSeg)})
-   \o Octaves("atan", 20, 46, NR(24, 256)) \o OctavesNeg("atan", 20, 46, NR(8, 64))
+   \o Octaves("atan", 20, 46, NR(12, 256)) \o OctavesNeg("atan", 20, 46, NR(4, 64))
    \o S2Q({Call("atan", <<"fx">>, <<x>>) : x \in PM(AtanX)})
    \o S2Q({Pair("atan_pair", x, ZNeg(x)) : x \in PM(AtanX)})
    \o S2Q({Pair("atan_pair", x, x ++ d) : x \in PM(AtanX), d \in {Z1, ZN(2), ZN(100), ZN(65536)}})
    \o FlatSeq([i \in 1..(IF Thorough THEN 40 ELSE 8) |-> S2Q({Pair("atan_pair", ZN(i * 5003) ++ d, (ZN(i * 5003) ++ d) ++ Z1) : d \in {ZN(j) : j \in 0..40}})])
    \o S2Q({Call("atan2", <<"fx", "fx">>, <<y, x>>) : y \in A2Lm, x \in A2Lm})
-   \o <<RandB("atan2", <<"fx", "fx">>, NR(8000, 300000), Seed + 1, 47), RandB("atan2", <<"fx", "fx">>, NR(4000, 100000), Seed + 2, 30),
-        RandB("atan2", <<"fx", "fx">>, NR(4000, 100000), Seed + 3, 18), RandB("atan", <<"fx">>, NR(5000, 200000), Seed + 4, 47)>>
+   \o <<RandPair("atan_pair", NR(3000, 200000), Seed + 5, 47, "neg", Phi, 0), RandPair("atan_pair", NR(4000, 300000), Seed + 6, 47, "delta", Phi, 0),
+        RandPair("atan_pair", NR(3000, 200000), Seed + 7, 22, "delta", Phi, 0)>>
+   \o <<RandB("atan2", <<"fx", "fx">>, NR(3000, 300000), Seed + 1, 47), RandB("atan2", <<"fx", "fx">>, NR(1500, 100000), Seed + 2, 30),
+        RandB("atan2", <<"fx", "fx">>, NR(1500, 100000), Seed + 3, 18), RandB("atan", <<"fx">>, NR(5000, 200000), Seed + 4, 47)>>
 
 (* ---- C12 ------------------------------------------------------------------------------------------ *)
 AsinX == PM({Z0, Z1, ZN(2), ZN(39321), ZN(39322), ZN(39323), ZN(32768), ZN(65535), ZN(65536), ZN(65534), ZN(60000)})
